@@ -122,6 +122,12 @@ def _structure_job(args):
                         if abs(i - j) <= 1 or j == 0:
                             Bd[i, j] = G[i, j]
                 measure(rec, "fill-in-pattern", {"which": "full first column, tridiagonal rest", "A": Bd.tolist()}, Bd)
+            # a sub-column whose entries are so small that their SQUARES underflow (graded matrices, outputs of
+            # earlier reductions): the reflector must still be unitary
+            for e_ in (-530, -520):
+                Dn = G.copy()
+                Dn[1:, 0] *= 2.0 ** e_
+                measure(rec, "underflow-subcolumn", {"A": "G with column 0 below the diagonal scaled by 2^%d" % e_, "n": n}, Dn)
             # pure imaginary / single axis sub-column
             Pm = G.copy()
             Pm[1:, 0, 0] = 0
